@@ -28,98 +28,163 @@ class CountingIter:
         return x
 
 
-def reader_cases(ctx, out, rng):
+# ---- one eval_* per kind of case, shared by the *_cases generators and replay_case; each returns (info, failures)
+def eval_reader(lines):
+    """A reader over an instrumented line iterator: how many lines it has pulled after construction and after every record.
+    info["completed"] is False when the reader could not be constructed or was already too eager when constructed."""
     from maflib.reader import MafReader
+    src = CountingIter(lines)
+    info = {"completed": False, "init_exc": None, "pulled_after_init": None, "steps": []}
+    try:
+        rd = MafReader(lines=src, validation_stringency=None)
+    except Exception as e:  # noqa
+        info["init_exc"] = exc_name(e)
+        return info, []
+    k = 0
+    stripped = [l.rstrip("\r\n") for l in lines]
+    while k < len(stripped) and stripped[k].startswith("#"):
+        k += 1
+    info["header_lines"] = k
+    info["pulled_after_init"] = src.pulled
+    where = {"lines": [l[:40] for l in lines], "header_lines": k, "input_lines": list(lines)}
+    # after construction: header lines, the column line and one look-ahead
+    if src.pulled > k + 2:
+        return info, [dict(where, what="constructing the reader pulled %d lines (header %d + column line + 1 look-ahead allowed)" % (src.pulled, k),
+                           kind="reader-eager")]
+    failures = []
+    returned = 0
+    try:
+        while True:
+            rd.__next__()
+            returned += 1
+            bound = (k + 1) + returned + 1
+            info["steps"].append((returned, src.pulled, bound))
+            if src.pulled > bound:
+                failures.append(dict(where, what="after returning record %d the reader had pulled %d lines (> %d)" % (returned, src.pulled, bound),
+                                     kind="reader-eager"))
+                break
+    except StopIteration:
+        pass
+    info["completed"] = True
+    return info, failures
+
+
+def eval_writer(typed, header, nrec):
+    """An unsorted writer (assume_sorted default) over a recording handle: each record's line is there when += returns.
+    Record j is the fixed record at T/N, chromosome 1, position 10 + j (typed: parsed under gdc-1.0.0; else scheme-less)."""
+    from maflib.header import MafHeader
+    from maflib.validation import ValidationStringency as VS
+    from maflib.writer import MafWriter
+    failures = []
+    info = {"steps": []}
+    buf = impl.RecordingHandle()
+    w = MafWriter.from_fd(buf, MafHeader.from_lines(header, validation_stringency=VS.Silent), validation_stringency=VS.Silent)   # assume_sorted default
+    for j in range(nrec):
+        rec = SC.typed_record(None, "T", "N", "1", 10 + j, 10 + j) if typed else SC.untyped_record("T", "N", "1", str(10 + j), str(10 + j))
+        before = buf.text()
+        w += rec
+        after = buf.text()
+        new = after[len(before):]
+        info["steps"].append((j, len(new), new.endswith(str(rec) + "\n")))
+        if not new.endswith(str(rec) + "\n"):
+            failures.append({"what": "an unsorted writer had not emitted the record's line when write() returned", "kind": "writer-deferred",
+                             "header": header, "record_index": j, "emitted": new[-120:], "typed": typed, "records": nrec})
+            break
+    w.close()
+    info["total_written"] = len(buf.text())
+    return info, failures
+
+
+def eval_overlap(n_inputs, contigs, by_barcodes, items):
+    """Overlap iteration over instrumented inputs (a configuration of C11): pulls per input against records emitted."""
+    from maflib.overlap_iter import LocatableOverlapIterator
+    inputs = c11.build_inputs(n_inputs, contigs, by_barcodes, items)
+    srcs = [CountingIter(inp) for inp in inputs]
+    config = {"n_inputs": n_inputs, "contigs": contigs, "by_barcodes": by_barcodes, "items": [list(x) for x in items]}
+    info = {"inputs": inputs, "steps": 0, "pulled": None, "emitted": None, "exc": None}
+    failures = []
+    try:
+        it = LocatableOverlapIterator(srcs, contigs=contigs, by_barcodes=by_barcodes)
+        emitted = [0] * len(inputs)
+        bad = None
+        if any(s.pulled > 1 for s in srcs):
+            bad = "construction pulled more than one record from an input"
+        info["pulled_after_init"] = [s.pulled for s in srcs]
+        steps = 0
+        for g in it:
+            steps += 1
+            for i, slot in enumerate(g):
+                emitted[i] += len(slot)
+            for i, s in enumerate(srcs):
+                if s.pulled > emitted[i] + 1:
+                    bad = "after group %d input %d had been pulled %d times for %d emitted records" % (steps, i, s.pulled, emitted[i])
+            if bad or steps > 100:
+                break
+        info["steps"], info["pulled"], info["emitted"] = steps, [s.pulled for s in srcs], emitted
+        if bad:
+            failures.append({"what": "overlap iteration is not incremental: " + bad, "kind": "overlap-eager",
+                             "inputs": [[repr(x) for x in inp] for inp in inputs], "config": config})
+    except Exception as e:  # noqa
+        info["exc"] = exc_name(e)
+        failures.append({"what": "overlap iteration failed: %s" % exc_name(e), "kind": "exception", "config": config})
+    return info, failures
+
+
+def eval_sorter(cap, sp, next_key, count):
+    """A sorter of capacity `cap` fed `count` items whose keys come from next_key(): records on disk after every add.
+    Stops at the first add after which too many records are still in memory (no further key is drawn)."""
+    from maflib.sorter import Sorter
+    from .c07 import JsonCodec
+    info = {"adds": 0, "keys": [], "spilled": []}
+    failures = []
+    with tempfile.TemporaryDirectory() as tmp:
+        s = Sorter(cap, JsonCodec(), lambda x: x[0], tmp_dir=tmp, always_spill=sp)
+        for k in range(count):
+            info["adds"] += 1
+            key = next_key()
+            info["keys"].append(key)
+            s += (key, k)
+            added = k + 1
+            spilled = spilled_count(tmp)
+            info["spilled"].append(spilled)
+            if added - spilled >= cap or added - spilled < 0:
+                failures.append({"what": "after %d adds with capacity %d only %d records are on disk (%d still in memory, must be < %d)" % (
+                    added, cap, spilled, added - spilled, cap), "kind": "sorter-not-spilling", "capacity": cap, "always_spill": sp,
+                    "keys": list(info["keys"])})
+                break
+        s.close()
+    return info, failures
+
+
+def reader_cases(ctx, out, rng):
     for _ in range(ctx.scale(200, 2500)):
         ann = rng.choice([None, "gdc-1.0.0"])
         lines = filecases.whole_file(rng, ann, sort=None, n_data=rng.randrange(0, 7), col=rng.random() < 0.95)
-        src = CountingIter(lines)
         out.evaluations += 1
-        try:
-            rd = MafReader(lines=src, validation_stringency=None)
-        except Exception as e:  # noqa
-            continue
-        k = 0
-        stripped = [l.rstrip("\r\n") for l in lines]
-        while k < len(stripped) and stripped[k].startswith("#"):
-            k += 1
-        where = {"lines": [l[:40] for l in lines], "header_lines": k}
-        # after construction: header lines, the column line and one look-ahead
-        if src.pulled > k + 2:
-            out.failures.append(dict(where, what="constructing the reader pulled %d lines (header %d + column line + 1 look-ahead allowed)" % (src.pulled, k),
-                                     kind="reader-eager"))
-            continue
-        returned = 0
-        plain = iter(rd.__next__, None)
-        try:
-            while True:
-                rd.__next__()
-                returned += 1
-                bound = (k + 1) + returned + 1
-                if src.pulled > bound:
-                    out.failures.append(dict(where, what="after returning record %d the reader had pulled %d lines (> %d)" % (returned, src.pulled, bound),
-                                             kind="reader-eager"))
-                    break
-        except StopIteration:
-            pass
-        out.nontrivial.add(("reader", repr(lines)))
+        info, failures = eval_reader(lines)
+        out.failures += failures
+        if info["completed"]:
+            out.nontrivial.add(("reader", repr(lines)))
     out.distribution["reader"] += 1
 
 
 def writer_cases(ctx, out, rng):
-    from maflib.header import MafHeader
-    from maflib.validation import ValidationStringency as VS
-    from maflib.writer import MafWriter
     for _ in range(ctx.scale(60, 600)):
         typed = rng.random() < 0.5
         header = ["#version gdc-1.0.0"] + ([] if typed else ["#annotation.spec lab"]) + rng.choice([[], ["#sort.order Coordinate"], ["#sort.order Unsorted"]])
         out.evaluations += 1
-        buf = impl.RecordingHandle()
-        w = MafWriter.from_fd(buf, MafHeader.from_lines(header, validation_stringency=VS.Silent), validation_stringency=VS.Silent)   # assume_sorted default
-        n0 = len(buf.chunks)
-        for j in range(rng.randrange(1, 6)):
-            rec = SC.typed_record(rng, "T", "N", "1", 10 + j, 10 + j) if typed else SC.untyped_record("T", "N", "1", str(10 + j), str(10 + j))
-            before = buf.text()
-            w += rec
-            after = buf.text()
-            new = after[len(before):]
-            if not new.endswith(str(rec) + "\n"):
-                out.failures.append({"what": "an unsorted writer had not emitted the record's line when write() returned", "kind": "writer-deferred",
-                                     "header": header, "record_index": j, "emitted": new[-120:]})
-                break
-        w.close()
+        _info, failures = eval_writer(typed, header, rng.randrange(1, 6))
+        out.failures += failures
         out.nontrivial.add(("writer", tuple(header), typed))
 
 
 def overlap_cases(ctx, out, rng):
-    from maflib.overlap_iter import LocatableOverlapIterator
     for _ in range(ctx.scale(200, 2500)):
         n_inputs, contigs, by_barcodes, items = c11.gen_config(rng, 7)
-        inputs = c11.build_inputs(n_inputs, contigs, by_barcodes, items)
-        srcs = [CountingIter(inp) for inp in inputs]
         out.evaluations += 1
-        try:
-            it = LocatableOverlapIterator(srcs, contigs=contigs, by_barcodes=by_barcodes)
-            emitted = [0] * len(inputs)
-            bad = None
-            if any(s.pulled > 1 for s in srcs):
-                bad = "construction pulled more than one record from an input"
-            steps = 0
-            for g in it:
-                steps += 1
-                for i, slot in enumerate(g):
-                    emitted[i] += len(slot)
-                for i, s in enumerate(srcs):
-                    if s.pulled > emitted[i] + 1:
-                        bad = "after group %d input %d had been pulled %d times for %d emitted records" % (steps, i, s.pulled, emitted[i])
-                if bad or steps > 100:
-                    break
-            if bad:
-                out.failures.append({"what": "overlap iteration is not incremental: " + bad, "kind": "overlap-eager",
-                                     "inputs": [[repr(x) for x in inp] for inp in inputs]})
-        except Exception as e:  # noqa
-            out.failures.append({"what": "overlap iteration failed: %s" % exc_name(e), "kind": "exception"})
-        out.nontrivial.add(("overlap", repr(inputs)))
+        info, failures = eval_overlap(n_inputs, contigs, by_barcodes, items)
+        out.failures += failures
+        out.nontrivial.add(("overlap", repr(info["inputs"])))
 
 
 def spilled_count(tmp):
@@ -140,22 +205,11 @@ def spilled_count(tmp):
 
 
 def sorter_cases(ctx, out, rng):
-    from maflib.sorter import Sorter
-    from .c07 import JsonCodec
     for cap in ([1, 2, 3, 4, 7] if ctx.tier == "quick" else range(1, 12)):
         for sp in (True, False):
-            with tempfile.TemporaryDirectory() as tmp:
-                s = Sorter(cap, JsonCodec(), lambda x: x[0], tmp_dir=tmp, always_spill=sp)
-                for k in range(3 * cap + 2):
-                    out.evaluations += 1
-                    s += (rng.randrange(100), k)
-                    added = k + 1
-                    spilled = spilled_count(tmp)
-                    if added - spilled >= cap or added - spilled < 0:
-                        out.failures.append({"what": "after %d adds with capacity %d only %d records are on disk (%d still in memory, must be < %d)" % (
-                            added, cap, spilled, added - spilled, cap), "kind": "sorter-not-spilling", "capacity": cap, "always_spill": sp})
-                        break
-                s.close()
+            info, failures = eval_sorter(cap, sp, lambda: rng.randrange(100), 3 * cap + 2)
+            out.evaluations += info["adds"]
+            out.failures += failures
             out.nontrivial.add(("sorter", cap, sp))
 
 
@@ -171,6 +225,62 @@ def run(ctx):
     out.sample({"reader_bound": "pulled <= (#header lines + 1) + returned + 1", "overlap_bound": "pulled_i <= emitted_i + 1",
                 "sorter_bound": "added - spilled < capacity", "writer": "line emitted when write() returns"})
     return out
+
+
+def replay_case(ctx, failure):
+    """Re-evaluate the stored failing input on the current implementation; return the list of failure dicts it
+    produces now (empty list = the property holds on that input).  (C19 states bounds on the implementation's own
+    behaviour; no case of it is compared with the model.)"""
+    f = failure
+    kind = f.get("kind")
+    if kind == "reader-eager":
+        lines = f.get("input_lines")
+        if not isinstance(lines, list):
+            return None              # old files hold the lines truncated to 40 characters
+        print("executed: MafReader(lines=<counting iterator over %d lines>, validation_stringency=None), then __next__() until StopIteration" % len(lines))
+        info, failures = eval_reader(lines)
+        if info["init_exc"]:
+            print("implementation: constructing the reader raised %s (nothing to judge)" % info["init_exc"])
+        else:
+            print("implementation: %d header line(s); %d line(s) pulled by the constructor (allowed %d)" % (info["header_lines"], info["pulled_after_init"], info["header_lines"] + 2))
+            for returned, pulled, bound in info["steps"][:12]:
+                print("implementation: after record %d: %d line(s) pulled (allowed %d)" % (returned, pulled, bound))
+    elif kind == "writer-deferred":
+        if not (isinstance(f.get("header"), list) and isinstance(f.get("typed"), bool) and isinstance(f.get("records"), int)):
+            return None
+        print("executed: MafWriter.from_fd(<recording handle>, header=%s, Silent) (assume_sorted default), += %d %s record(s) at 1:10.., text inspected after each +=" % (
+            f["header"], f["records"], "gdc-1.0.0" if f["typed"] else "scheme-less"))
+        info, failures = eval_writer(f["typed"], f["header"], f["records"])
+        for j, n, ok in info["steps"]:
+            print("implementation: += record %d wrote %d character(s); the record's line %s" % (j, n, "is the end of the output" if ok else "has NOT been emitted"))
+    elif kind in ("overlap-eager", "exception"):
+        c = f.get("config")
+        if not isinstance(c, dict) or not all(x in c for x in ("n_inputs", "contigs", "by_barcodes", "items")):
+            return None
+        items = [tuple(x) for x in c["items"]]
+        print("executed: LocatableOverlapIterator over %d counting input(s), contigs=%s, by_barcodes=%s, items (tumor, normal, chrom, start, end, input)=%s" % (
+            c["n_inputs"], c["contigs"], c["by_barcodes"], items))
+        info, failures = eval_overlap(c["n_inputs"], c["contigs"], c["by_barcodes"], items)
+        if info["exc"]:
+            print("implementation: raised %s" % info["exc"])
+        else:
+            print("implementation: pulled per input after construction %s; after %d group(s): pulled %s, emitted %s (allowed pulled_i <= emitted_i + 1)" % (
+                info.get("pulled_after_init"), info["steps"], info["pulled"], info["emitted"]))
+    elif kind == "sorter-not-spilling":
+        keys = f.get("keys")
+        if not (isinstance(keys, list) and isinstance(f.get("capacity"), int) and "always_spill" in f):
+            return None
+        it = iter(keys)
+        print("executed: Sorter(capacity=%d, always_spill=%s) += items with keys %s, spill files decoded after every add" % (f["capacity"], f["always_spill"], keys))
+        info, failures = eval_sorter(f["capacity"], f["always_spill"], lambda: next(it), len(keys))
+        print("implementation: records on disk after each add: %s (in memory = adds - on disk, must stay < %d)" % (info["spilled"], f["capacity"]))
+    else:
+        return None
+    for g in failures:
+        print("oracle: [%s] %s" % (g["kind"], g["what"]))
+    if not failures:
+        print("oracle: satisfied (the bound holds after every step)")
+    return failures
 
 
 def search(ctx):
